@@ -129,6 +129,27 @@ Theorem C02_semantics_is_the_generated_code :
 Proof. exact semantics_is_the_generated_code. Qed.
 Print Assumptions C02_semantics_is_the_generated_code.
 
+(* ---- composition with Layer 0 (SchedFlowCompose). `reach` above is an assumption about the
+   scheduler; this theorem discharges it: for every configuration of the scheduler model
+   whose job graph contains the Dependencies of the generated jobs (what the harness compares
+   on every generated function), every run - any number of workers, both error modes, any
+   interleaving, cancellations, Goexit - in which each job reports to the scheduler what its
+   run closure did, read in the order in which the jobs end, is such an execution. Every
+   theorem of this file therefore holds on every schedule the scheduler can produce. *)
+From CffVerif Require SchedModel SchedFlowCompose.
+
+Theorem C02_every_scheduler_run :
+  forall (c : SchedModel.cfg) (f : fflow) (sc : scenario) (jobof : nat -> option fid),
+    (forall j x, jobof j = Some x -> In x (all_jobs f)) ->
+    (forall i j x, jobof i = Some x -> jobof j = Some x -> i = j) ->
+    (forall j x y, jobof j = Some x -> In y (jdeps f x) ->
+       exists d, In d (SchedModel.jdeps (SchedModel.spec c j)) /\ jobof d = Some y) ->
+    forall acts s, SchedModel.wf_cfg c -> SchedModel.run c (SchedModel.init c) acts = Some s ->
+      SchedFlowCompose.consistent f sc jobof (SchedModel.log s) ->
+      reach f sc (SchedFlowCompose.exec_of f sc jobof (SchedModel.log s)).
+Proof. exact SchedFlowCompose.scheduler_runs_are_flow_executions. Qed.
+Print Assumptions C02_every_scheduler_run.
+
 (* non-vacuity: a diamond with a predicate, two different valid schedules, same outcome *)
 Definition ex_flow : fflow :=
   {| gparams := [0]; gresults := [3];
